@@ -206,7 +206,7 @@ def main(run):
                 return tuple(d["t"] for d in st.get_data()[0])
             try:
                 lawd, runs_x, fsites = exact_law(scen)
-            except Budget:
+            except (Budget, NotImplementedError):      # (a draw form the scripted generators do not model: this sub-monitor cannot judge)
                 run.count("exact-law-budget-exceeded")
                 continue
             run.ok(kind="exact-transition-law")
